@@ -262,12 +262,18 @@ def scan(repo=None):
                             isinstance(st.value.func, ast.Name) and st.value.func.id == "Structure" and \
                             st.lineno not in events["N"]:
                         events["N"].append(st.lineno)
+                # local names bound to the very object (`matched = field`): handing THEM to `__set__` reads the attribute too
+                aliases = {tgt_s}
+                for st in ast.walk(fn):
+                    if isinstance(st, ast.Assign) and ast.unparse(st.value) == tgt_s:
+                        aliases |= {t.id for t in st.targets if isinstance(t, ast.Name)}
                 for m in ast.walk(fn):
                     if isinstance(m, ast.Call):
                         if (isinstance(m.func, ast.Attribute) and m.func.attr == "__set__"
-                                and ast.unparse(m.func.value) == tgt_s):
+                                and ast.unparse(m.func.value) in aliases):
                             read_back = True
-                            events["S"].append(_stmt_line(fn, m))
+                            if _stmt_line(fn, m) not in events["S"]:
+                                events["S"].append(_stmt_line(fn, m))
                         if (isinstance(m.func, ast.Name) and m.func.id == "getattr" and len(m.args) >= 2
                                 and _const_str(m.args[1]) == attr and ast.unparse(m.args[0]) == tgt_s):
                             read_back = True
